@@ -189,6 +189,8 @@ def assumptions(pid):
 
 def replay_input(engine, case):
     """Turn a recorded trace case back into the harness's replay input."""
+    if 'raw' in case:
+        return case
     if 'ops' in case:
         return dict(cfg=case.get('cfg'), evs=[op['in'] for op in case['ops']])
     return case
